@@ -16,17 +16,109 @@ EXEMPT = [
 ]
 
 
+# function-entry hook (harness/tsan_cov.c): which library functions ran under TSan
+COV_FLAGS = ["-finstrument-functions"]
+COV_SRC = "tsan_cov.c"
+
+
+def symtab(exe):
+    """address -> (function name, source file) of the functions defined in the executable"""
+    p = subprocess.run(["nm", "-l", "--defined-only", exe], stdout=subprocess.PIPE, stderr=subprocess.DEVNULL, text=True, errors="replace")
+    tab = {}
+    for line in p.stdout.splitlines():
+        m = re.match(r"([0-9a-f]+) [tTwW] (\S+)(?:\t(\S+):\d+)?", line)
+        if m:
+            tab.setdefault(int(m.group(1), 16), (m.group(2), m.group(3) or ""))
+    return tab
+
+
+def read_cov(path, tab):
+    """functions of the library sources (REPO/src) recorded in a coverage file, as 'file:function'"""
+    hook = [a for a, (n, f) in tab.items() if n == "__cyg_profile_func_enter"]
+    try:
+        lines = open(path).read().split()
+    except OSError:
+        return set()
+    got = set()
+    slide = None
+    for l in lines:
+        if len(l) != 17:
+            continue
+        v = int(l[1:], 16)
+        if l[0] == "B" and hook:
+            slide = v - hook[0]
+        elif l[0] == "F" and slide is not None:
+            ent = tab.get(v - slide)
+            if ent and "/src/" in ent[1] and ent[1].startswith(vlib.REPO):
+                got.add(os.path.basename(ent[1]) + ":" + ent[0])
+    return got
+
+
 def build(outdir):
-    return vlib.cc_build(outdir, "ivfree", ["ivmt.c", "free_shim.c"], vlib.LIB_SRCS,
+    return vlib.cc_build(outdir, "ivfree", ["ivmt.c", "free_shim.c", COV_SRC], vlib.LIB_SRCS, extra=COV_FLAGS,
                          san_flags=["-fsanitize=thread", "-fno-omit-frame-pointer"],
-                         ldflags=["-Wl,--defsym=__real_fork=fork"])
+                         ldflags=["-Wl,--defsym=__real_fork=fork"],
+                         # free_shim.c: optional stall of library-created threads before a lock call (option Zstall=)
+                         wraps=["pthread_mutex_lock"])
+
+
+def continuation_program(rng, be=None):
+    """work functions that submit continuations (iv_work_pool_submit_continuation from a pool thread) while
+    the pool has fewer threads than max_threads and none idle: the pool thread posts `thread_needed`
+    to the owner, whose iv_work_thread_needed runs concurrently with the workers.  Item 0 starts a chain;
+    every chain item submits leaves and the next chain item; the pool is put from the completion of the LAST
+    chain item, which is causally after every submission (the harness' own pool bookkeeping must not race)."""
+    be = be or rng.choice(["et", "ep"])
+    mx = rng.randint(2, 4)
+    items = list(range(1, 8))
+    rng.shuffle(items)
+    chain = [0]
+    secs = ["B" + be]
+    scripts = {}
+    nleft = rng.randint(2, 7)
+    cur = 0
+    while True:
+        n_here = rng.randint(1, min(3, nleft)) if nleft else 0
+        mine = [items.pop() for _ in range(n_here)]
+        nleft -= n_here
+        acts = []
+        for it in mine:
+            if rng.random() < 0.5:
+                acts.append("sl%d" % rng.choice([1, 1, 2]))
+            acts.append("wS0.0.%d" % it)
+        scripts[cur] = acts
+        if nleft <= 0 or not mine:
+            break
+        cur = mine[-1]              # the last one submitted continues the chain
+        chain.append(cur)
+    secs.append("L0:wc0=%d ws0.0" % mx)
+    for it in chain:
+        if scripts.get(it):
+            secs.append("H0w%d:%s" % (it, " ".join(scripts[it])))
+    secs.append("H0c%d:wp0" % chain[-1])
+    return ";".join(secs)
+
+
+def idle_program(rng, stall=200):
+    """the pool thread's idle timeout (10 s of real time) racing with a submission.  Item 0 makes the one
+    pool thread; when its completion runs the thread has just gone idle, and the owner arms a timer for
+    10 s + stall/2 later.  The thread's idle timer expires after 10 s; being a library-created thread it stalls
+    `stall` ms before taking the pool lock (free_shim.c, Zstall), and the owner's submission (kicked = 1 under
+    the pool lock) lands inside that stall.  The unchanged library then re-arms the idle timer and runs item 1;
+    if the submission comes too early or too late (load) the thread is kicked normally resp. has exited and
+    a new one is made: the program ends in every case, the verdict never depends on the timing."""
+    be = rng.choice(["et", "ep"])
+    jitter = rng.randint(-stall // 4, stall // 4)
+    ns = 10 * 10**9 + (stall // 2 + jitter) * 10**6
+    return "B%s;Zstall=%d,alarm=30;L0:wc0=1 ws0.0;H0c0:tr0+%d;H0t0:ws0.1;H0c1:wp0" % (be, stall, ns)
+
 
 
 def programs(rng, n):
     """terminating free-running programs (every loop ends because all its objects get unregistered)"""
     out = []
     for i in range(n):
-        kind = i % 6
+        kind = i % 7
         be = rng.choice(["et", "ep", "pp", "po"])
         if kind == 0:
             # posters -> owner events; the owner joins the posters before unregistering
@@ -53,8 +145,6 @@ def programs(rng, n):
             secs = ["B" + rng.choice(["et", "ep"]), "L0:wc0=%d " % mx + " ".join("ws0.%d" % i for i in range(n_items - 1))]
             secs.append("H0c0:ws0.%d" % (n_items - 1))
             secs.append("H0c%d:wp0" % (n_items - 1))
-            if rng.random() < 0.5 and n_items > 2:
-                secs.append("H0w1:wS0.0.%d" % 1 if False else "H0w1:-")
             out.append(";".join(secs))
         elif kind == 3:
             # helper threads (iv_thread_create) posting to their creator, joined through the dead event
@@ -69,6 +159,8 @@ def programs(rng, n):
                     "P1:sl%d " % rng.choice([3, 5]) + " ".join("ep0.%d sl1" % rng.choice([1, 2]) for _ in range(rng.randint(3, 8))),
                     "H0t0:jn eu1 eu2", "H0e1:-", "H0e2:-"]
             out.append(";".join(secs))
+        elif kind == 6:
+            out.append(continuation_program(rng, rng.choice(["et", "ep"])))
         else:
             # independent loops initialised, run and torn down concurrently in several threads
             nl = rng.randint(2, 4)
@@ -80,10 +172,12 @@ def programs(rng, n):
     return out
 
 
-def run(exe, cases, timeout=60):
-    """returns list of (case, rc, race_summaries, stderr_tail)"""
+def run(exe, cases, timeout=60, cov=None):
+    """returns list of (case, rc, race_summaries, stderr_tail); cov = file that collects the entered functions"""
     res = []
     env = dict(os.environ, TSAN_OPTIONS="exitcode=66 halt_on_error=0 second_deadlock_stack=1")
+    if cov:
+        env["TSAN_COV_FILE"] = cov
     for c in cases:
         try:
             p = subprocess.run([exe], input=c + "\n", stdout=subprocess.PIPE, stderr=subprocess.PIPE, text=True,
